@@ -35,6 +35,11 @@ CHECKS = {
             "All boundary classes (+-(2^n-1), +-2^n, parity, .align 1-64 x 64 addresses, counts 0/1/65535/65536/-1, <n> 0..256) are enumerated; "
             "random programs add volume over five charsets with strings inside and outside each repertoire and every escape form.",
             "Python's codecs are the reference for utf-8, koi8-r, latin-1, cp866; the bk table is compared as in C14.", "3 C06"),
+    "C07": ("fault_enumeration", "offline rule checker over the CLI shim's event log (emit_report events, open() audit events, directory snapshots) + relational check across the option matrix",
+            "Programs with 0-3 planted faults of the 63-kind catalogue and warning-only plantings are run through the real CLI under an audit-hook/"
+            "snapshot shim for every option point; errors <=> non-zero exit, failed runs touch nothing, successful runs write every requested output, "
+            "and -W / report-format choices never change status, files or bytes.",
+            "One listed finding (partial emit with an unwritable make_* target) is matched by a predicate over the selector and the event log.", "3 C07"),
     "C08": ("exploration", "outcome classifier under a sys.monitoring logical clock over grammar-directed generation, token/character mutation and corpus splicing",
             "Every input is assembled by the real parser+compiler under one of the real report handlers inside a worker with a deterministic "
             "logical step budget; the outcome is classified (ok / fail with errors / fail silently / internal exception / non-termination) and a "
@@ -43,6 +48,11 @@ CHECKS = {
     "C16": ("exploration", "metamorphic checker: structured form vs written-out form (repeat/unroll, link/concatenate, insert_file/.byte, .end+junk, .once twice/once)",
             "Both sides of each pair are rendered from one abstract program and assembled by the real assembler; (status, base, bytes) must be equal.",
             "Bodies avoid the listed definitional-cycle finding; sampling.", "3 C16"),
+    "C17": ("fault_enumeration", "span invariant evaluated on every diagnostic + planted faults with recorded token positions (API recorder and bare-format CLI output)",
+            "Every one of the 63 fault kinds is planted at random top-level positions of the main, a linked and an included file with tabs, non-ASCII "
+            "text and comments before it; the first reported position must be the planted token (or statement start), and every span of every "
+            "diagnostic must be well-formed and print the line:column recomputed independently from its offset.",
+            "Accepted culprit positions per kind are listed in vlib/faults.py; one fault per program.", "3 C17"),
     "C18": ("exploration", "history checker (probe after history vs fresh process, in forked children) + state invariants at quiescent points + PYTHONHASHSEED sweep",
             "Histories of valid, failing, crashing and hostile assemblies precede a probe in one process; the probe's observable must equal "
             "that of a fresh process, the module-level state must be at rest after every assembly that ended by itself, and fresh observables "
@@ -78,6 +88,10 @@ CHECKS = {
             "Every character triple through '.rad50' and every 1-3 character '^R' literal is assembled by the real assembler and the "
             "emitted word is unpacked by an independent decoder; rejection cases enumerated over printable ASCII and <n> 40-63.",
             "Trusts the DEC RADIX-50 alphabet as written in the checker.", "3 C15"),
+    "C19": ("exploration", "listing parser + reference symbol table over shim-observed CLI runs with --lst",
+            "Generated multi-file programs with constants of any value and case-colliding names are assembled through the CLI with every output "
+            "selector; the listing is parsed and compared with the reference symbol table (sections, exactly-once, octal values, order) and its location checked.",
+            "The reference layout (checked against the image by C02) supplies label addresses.", "3 C19"),
 }
 
 NOT_YET = {}
